@@ -30,11 +30,13 @@ theorem nnp_before_install_same_thread (U : Unsupported) (filter : Filter) (p : 
 theorem prctl_words : PR_SET_NO_NEW_PRIVS = 38 ∧ SECCOMP_SET_MODE_FILTER = 1 := ⟨rfl, rfl⟩
 
 /-- **An unprivileged process can always load a valid filter when it asks for no_new_privs**, under
-    every schedule: valid program (accepted by the verifier, 1..4096 instructions), known flag bits, and
+    every schedule: a kernel that has the seccomp syscall, a valid program (accepted by the verifier,
+    1..4096 instructions), known flag bits, and
     — if thread-sync is requested — no other thread with a chain that is not an ancestor of the
     caller's. -/
 theorem unprivileged_can_load (U : Unsupported) (filter : Filter) (p : Prog)
     (hp : filter.policy = .prog p) (hn : filter.noNewPrivs = true) (w : World)
+    (havail : w.seccompAvailable = true)
     (hok : p.ok = true ∧ p.len % 65536 ≠ 0 ∧ p.len % 65536 ≤ BPF_MAXINSNS)
     (hflags : filter.flag &&& knownFlags = filter.flag)
     (hsync : filter.flag &&& FLAG_TSYNC ≠ 0 → ∀ t ∈ w.live, t ≠ w.cur →
@@ -47,7 +49,7 @@ theorem unprivileged_can_load (U : Unsupported) (filter : Filter) (p : Prog)
     rw [preInstall_sched_nnp filter w hn, preInstall_cur]
   have : (Gen.seccomp U 1 filter.flag (mkFprog (.prog p)) (preInstall filter w)).1 = GoErr.nil := by
     simp only [mkFprog]
-    apply gen_seccomp_ok hflags (by simpa using hok)
+    apply gen_seccomp_ok (by rw [preInstall_avail]; exact havail) hflags (by simpa using hok)
     · left
       rw [hcur, schedStep_thr, preInstall_nnp filter w hn]
       simp
@@ -93,12 +95,12 @@ theorem nnp_untouched_if_not_requested (U : Unsupported) (filter : Filter) (hn :
     cases hk with
     | declined e he _ => left; simpa [schedStep_thr] using h
     | refused t' _ _ _ => left; simpa [schedStep_thr] using h
-    | attachedOne q _ _ _ _ _ =>
+    | attachedOne q _ _ _ _ _ _ =>
       left
       by_cases ht : t = (schedStep w).cur
       · subst ht; simpa [World.upd, schedStep_thr] using h
       · simpa [World.upd, ht, schedStep_thr] using h
-    | attachedAll q _ _ _ _ _ _ =>
+    | attachedAll q _ _ _ _ _ _ _ =>
       simp only at h
       by_cases ht : t ∈ w.live
       · simp only [ht, if_true, Bool.or_eq_true, schedStep_thr] at h
